@@ -113,11 +113,11 @@ func c19Scenario(cs c19Case) *mc.Scenario {
 }
 
 func runC19(c *Ctx) {
-	pb := c.Pick(2, 3)
+	pb := c.Pick(3, 4)
 	for _, kind := range []string{"fixedpool-random", "fixedpool-fifo", "fixedpool-lifo", "pool-random", "pool-fifo", "pool-lifo"} {
 		c.Explore(c19Scenario(c19Case{kind: kind, limit: 1, callers: 2}), mc.Options{PreemptBound: pb})
-		c.Explore(c19Scenario(c19Case{kind: kind, limit: 1, callers: 3}), mc.Options{PreemptBound: c.Pick(1, 2)})
-		c.Explore(c19Scenario(c19Case{kind: kind, limit: 2, callers: 3}), mc.Options{PreemptBound: c.Pick(1, 2)})
+		c.Explore(c19Scenario(c19Case{kind: kind, limit: 1, callers: 3}), mc.Options{PreemptBound: c.Pick(2, 3)})
+		c.Explore(c19Scenario(c19Case{kind: kind, limit: 2, callers: 3}), mc.Options{PreemptBound: c.Pick(2, 3)})
 		if c.Thorough() {
 			c.ExploreBig(c19Scenario(c19Case{kind: kind, limit: 2, callers: 4}), mc.Options{PreemptBound: 2})
 		}
